@@ -205,6 +205,7 @@ fn emit_stats_case_inner<T: Sc>(out: &mut Out, fc: &FitCase<T>) {
                 fail_deriv: None,
                 dentries: vec![],
                 fail_eval: None,
+                fail_set: None,
             }));
             let mut ys = c.y.clone();
             for r in 0..ys.nrows() {
